@@ -142,4 +142,7 @@ def run(prog, rep):
             rep.ok("writer-pad-constant", "BTSString.write zero-fills everything after the text")
         else:
             rep.fail("writer-pad-constant", "tdfTypes.py", "BTSString.write", st, "bytes after the terminator are not constant zeros")
+    from .. import primitives as PR
+    rep.attempt(PR.tdftype_primitives, prog, rep)
+    rep.attempt(PR.string_codec, prog, rep, with_nul_cut=False)
     rep.not_decided += ["garbage inside declared data fields (not don't-care bytes)"]
